@@ -191,6 +191,27 @@ impl Printer {
                     format!("(ite (< {0} 0.0) (- 1.0) 1.0)", a)
                 }
             }
+            Node::F(k @ (F1::Floor | F1::Ceil | F1::Trunc | F1::Round), x) => {
+                let a = self.t(x);
+                if fp {
+                    let mode = match k {
+                        F1::Floor => "RTN",
+                        F1::Ceil => "RTP",
+                        F1::Trunc => "RTZ",
+                        _ => "RNA",
+                    };
+                    format!("(fp.roundToIntegral {} {})", mode, a)
+                } else {
+                    let floor = |t: &str| format!("(to_real (to_int {}))", t);
+                    let ceil = |t: &str| format!("(- (to_real (to_int (- {}))))", t);
+                    match k {
+                        F1::Floor => floor(&a),
+                        F1::Ceil => ceil(&a),
+                        F1::Trunc => format!("(ite (>= {0} 0.0) {1} {2})", a, floor(&a), ceil(&a)),
+                        _ => format!("(ite (>= {0} 0.0) {1} {2})", a, floor(&format!("(+ {} 0.5)", a)), ceil(&format!("(- {} 0.5)", a))),
+                    }
+                }
+            }
             Node::F(k, x) => {
                 let a = self.t(x);
                 let f = match k {
@@ -199,7 +220,7 @@ impl Printer {
                     F1::Sqrt => "f_sqrt",
                     F1::Tanh => "f_tanh",
                     F1::Cosh => "f_cosh",
-                    F1::Abs | F1::Signum => unreachable!(),
+                    F1::Abs | F1::Signum | F1::Floor | F1::Ceil | F1::Trunc | F1::Round => unreachable!(),
                 };
                 if self.occ_seen.insert((k, x)) {
                     self.occ.push((k, a.clone()));
@@ -270,7 +291,7 @@ impl Printer {
                             "(assert (=> (> {0} 0.0) (and (=> (>= {0} 1.0) (>= (f_ln {0}) 0.0)) (=> (<= {0} 1.0) (<= (f_ln {0}) 0.0)) (=> (= {0} 1.0) (= (f_ln {0}) 0.0)))))\n",
                             x
                         )),
-                        F1::Abs | F1::Signum => {}
+                        F1::Abs | F1::Signum | F1::Floor | F1::Ceil | F1::Trunc | F1::Round => {}
                     }
                 }
             }
@@ -288,6 +309,23 @@ impl Printer {
                             "(assert (ite (fp.isNaN {x}) (fp.isNaN {t}) (and (not (fp.isNaN {t})) (fp.geq {t} zero) (=> (fp.leq {x} zero) (fp.leq {t} one)) (=> (fp.isZero {x}) (= {t} one)) (=> (fp.geq {x} zero) (fp.geq {t} one)) (=> (and (fp.isInfinite {x}) (fp.isNegative {x})) (fp.isZero {t})) (=> (and (fp.isInfinite {x}) (fp.isPositive {x})) (fp.isInfinite {t})) (=> (fp.leq {x} expmax) (not (fp.isInfinite {t}))))))\n",
                             x = x, t = t
                         )),
+                        _ => {}
+                    }
+                    if *k == F1::Exp {
+                        // bracket table (monotone expf within a few ulps of the true value — the contract of every libm in
+                        // use; replay on the real build is the arbiter): x <= c  =>  exp x <= up(e^c),  x >= c  =>  exp x >= down(e^c)
+                        for (c, lo, hi) in exp_brackets().iter() {
+                            ax.push_str(&format!(
+                                "(assert (=> (fp.leq {x} {c}) (fp.leq {t} {hi})))\n(assert (=> (fp.geq {x} {c}) (fp.geq {t} {lo})))\n",
+                                x = x, t = t, c = fp_const(*c), lo = fp_const(*lo), hi = fp_const(*hi)
+                            ));
+                        }
+                        ax.push_str(&format!(
+                            "(assert (=> (fp.geq {x} {a}) (and (fp.isInfinite {t}) (fp.isPositive {t}))))\n(assert (=> (fp.leq {x} {b}) (fp.isZero {t})))\n",
+                            x = x, t = t, a = fp_const(88.8), b = fp_const(-104.5)
+                        ));
+                    }
+                    match k {
                         F1::Tanh => ax.push_str(&format!(
                             "(assert (ite (fp.isNaN {x}) (fp.isNaN {t}) (and (not (fp.isNaN {t})) (fp.leq {t} one) (fp.geq {t} (fp.neg one)) (=> (fp.geq {x} zero) (fp.geq {t} zero)) (=> (fp.leq {x} zero) (fp.leq {t} zero)))))\n",
                             x = x, t = t
@@ -374,4 +412,40 @@ impl Printer {
     pub fn var_symbols(&self) -> Vec<String> {
         self.vars.iter().map(|k| format!("v{}", k)).collect()
     }
+}
+
+
+/// an f32 constant as an SMT-LIB Float32 literal (bit pattern)
+pub fn fp_const(v: f32) -> String {
+    let b = v.to_bits();
+    format!("(fp #b{:01b} #b{:08b} #b{:023b})", b >> 31, (b >> 23) & 0xff, b & 0x7fffff)
+}
+
+/// (c, down(e^c), up(e^c)) with 2 ulps of slack on either side
+pub fn exp_brackets() -> Vec<(f32, f32, f32)> {
+    // only where single precision runs out: underflow to 0 below about -103.97, overflow above about 88.72
+    let cs: [f32; 16] = [-104.0, -103.0, -102.0, -101.0, -100.0, -95.0, -90.0, -88.0, -87.0, 80.0, 87.0, 87.5, 87.75, 88.0, 88.5, 88.7];
+    cs.iter()
+        .map(|&c| {
+            let e = (c as f64).exp();
+            let mid = e as f32;
+            let step = |v: f32, n: i32| -> f32 {
+                if !v.is_finite() {
+                    return v;
+                }
+                let b = v.to_bits() as i64 + n as i64;
+                if b < 0 {
+                    0.0
+                } else {
+                    let r = f32::from_bits(b as u32);
+                    if r.is_nan() {
+                        f32::INFINITY
+                    } else {
+                        r
+                    }
+                }
+            };
+            (c, step(mid, -2), step(mid, 2))
+        })
+        .collect()
 }
